@@ -48,7 +48,7 @@ MAXITEMS = 250
 
 
 def budget(tier):
-    return dict(examples=400 if tier == "quick" else 8000, shards=16)
+    return dict(examples=2400 if tier == "quick" else 48000, shards=16)
 
 
 # ---------------------------------------------------------------- generation
@@ -58,12 +58,17 @@ def rejectable(form):
 
 
 REJ_FORMS = {n: [fi for fi, f in enumerate(I.forms) if rejectable(f)] for n, I in ISAS.items()}
-REL_FORMS = {n: [fi for fi, f in enumerate(I.forms) if any(o.kind == "rel" for o in f.ops)] for n, I in ISAS.items()}
+REL_FORMS = {n: [fi for fi, f in enumerate(I.forms) if any(o.kind == "rel" and o.boundary_rej() for o in f.ops)]
+             for n, I in ISAS.items()}
+
+
+# larger tables get more batches
+WEIGHTED = [(3 + len(ISAS[n].forms) // 60, n) for n in NAMES]
 
 
 @composite
 def strategy_(d, tier):
-    name = d.choice(NAMES)
+    name = d.weighted(WEIGHTED)
     I = ISAS[name]
     mode = d.weighted([(6, "ok"), (3, "rej"), (1, "rejfwd")])
     if mode == "rejfwd" and not REL_FORMS[name]:
@@ -71,7 +76,7 @@ def strategy_(d, tier):
     if mode == "rej" and not REJ_FORMS[name]:
         mode = "ok"
     pool = {"ok": None, "rej": REJ_FORMS[name], "rejfwd": REL_FORMS[name]}[mode]
-    n = d.int(100, MAXITEMS)
+    n = d.int(min(100, I.maxitems), I.maxitems)
     items = []
     for _ in range(n):
         fi = d.int(0, len(I.forms) - 1) if pool is None else d.choice(pool)
@@ -81,10 +86,11 @@ def strategy_(d, tier):
             bad = d.choice(rejectable(f))
             vals[bad] = f.ops[bad].draw_rej(d)
         elif mode == "rejfwd":
-            bad = [i for i, o in enumerate(f.ops) if o.kind == "rel"][0]
+            bad = [i for i, o in enumerate(f.ops) if o.kind == "rel" and o.boundary_rej()][0]
             vals[bad] = f.ops[bad].draw_rej(d)
-        sty = d.int(0, 63)
-        items.append([fi, vals, sty])
+        sty = d.int(0, 255)
+        off = d.choice(I.offsets) if len(I.offsets) > 1 else I.offsets[0]
+        items.append([fi, vals, sty, off])
     return dict(isa=name, mode=mode, items=items)
 
 
@@ -96,31 +102,89 @@ def _chunks(name, mode, items):
     return [dict(isa=name, mode=mode, items=items[i:i + MAXITEMS]) for i in range(0, len(items), MAXITEMS)]
 
 
+def _edge_chunks(I, mode, edge):
+    """place every item so that its pc is the last position of a page from which the instruction still
+    starts in that page (filler: form 0, which has no operands)"""
+    if not edge:
+        return []
+    page, want = I.page_end
+    out, cur = [], []
+    for fi, vals, sty, _ in edge:
+        while True:
+            if len(cur) >= MAXITEMS - 1:
+                out.append(dict(isa=I.name, mode=mode, items=cur))
+                cur = []
+            base = I.base + len(cur) * I.slot
+            offs = [o for o in range(0, I.slot) if (base + o) % page == want]
+            if offs:
+                cur.append([fi, vals, sty, offs[0]])
+                break
+            cur.append([FILLER[I.name][mode], FILLER_VALS[I.name][mode], 0, 0])
+    if cur:
+        out.append(dict(isa=I.name, mode=mode, items=cur))
+    return out
+
+
+def _filler(I, mode):
+    for fi, f in enumerate(I.forms):
+        if mode == "ok" and not f.ops:
+            return fi, []
+        if mode == "rej" and len(f.ops) == 1 and f.ops[0].kind == "int" and f.ops[0].boundary_rej():
+            return fi, [f.ops[0].boundary_rej()[0]]
+    return 0, []
+
+
+FILLER = {n: {m: _filler(I, m)[0] for m in ("ok", "rej")} for n, I in ISAS.items()}
+FILLER_VALS = {n: {m: _filler(I, m)[1] for m in ("ok", "rej")} for n, I in ISAS.items()}
+
+
 def fixed_cases(tier):
     """every form of every table with every boundary value of every operand (mode ok), every limit+1/+2,
     limit-1/-2 (mode rej), and every relative form beyond both limits through a forward label (rejfwd)"""
     out = []
     for name in NAMES:
         I = ISAS[name]
-        okitems, rejitems, fwditems = [], [], []
+        okitems, rejitems, fwditems, edgeitems, edgerej = [], [], [], [], []
         for fi, f in enumerate(I.forms):
             bounds = [o.boundary_ok() for o in f.ops]
             n = max([len(b) for b in bounds], default=1)
             for j in range(max(n, 1)):
                 vals = [b[j % len(b)] for b in bounds]
                 # style: cycle hex/dec and number / backward / forward label
-                sty = (j * 5 + fi) % 64
+                sty = (j * 37 + fi * 5) % 256
                 if any(o.kind == "rel" for o in f.ops):
                     sty = (sty & 15) | ((j % 3) << 4)
-                okitems.append([fi, vals, sty])
+                okitems.append([fi, vals, sty, I.offsets[(j + fi) % len(I.offsets)]])
+                if I.page_end and any(o.kind == "rel" for o in f.ops):
+                    edgeitems.append([fi, vals, sty, None])
             for oi, o in enumerate(f.ops):
                 for k, rv in enumerate(o.boundary_rej()):
                     vals = [b[(k + 1) % len(b)] for b in bounds]
                     vals[oi] = rv
-                    rejitems.append([fi, vals, (k * 7 + fi) % 64])
+                    rejitems.append([fi, vals, (k * 71 + fi * 3) % 256, I.offsets[k % len(I.offsets)]])
                     if o.kind == "rel":
-                        fwditems.append([fi, list(vals), (k * 3 + fi) % 16])
+                        fwditems.append([fi, list(vals), (k * 3 + fi) % 16, I.offsets[k % len(I.offsets)]])
+                        if I.page_end:
+                            edgerej.append([fi, list(vals), (k * 7 + fi) % 64, None])
         out += _chunks(name, "ok", okitems) + _chunks(name, "rej", rejitems) + _chunks(name, "rejfwd", fwditems)
+        out += _edge_chunks(I, "ok", edgeitems) + _edge_chunks(I, "rej", edgerej)
+        if I.straddle:
+            for mode, lst in (("ok", okitems), ("rej", rejitems), ("rejfwd", fwditems)):
+                rel = [it for it in lst if any(o.kind == "rel" and o.hi - o.lo > 1000 for o in I.forms[it[0]].ops)]
+                if not rel:
+                    continue
+                m2 = "rej" if mode == "rejfwd" else mode
+                for k in range(0, len(rel), 60):
+                    part = rel[k:k + 60]
+                    fill = [[FILLER[name][m2], FILLER_VALS[name][m2], 0, 0]] * (MAXITEMS - 2 * len(part))
+                    if mode == "rejfwd":
+                        fill = []
+                        part = part + [list(p) for p in part]
+                        # forward-only batch: first half early, second half late is not possible without
+                        # filler that is itself a forward reject; use the relative forms themselves
+                        out.append(dict(isa=name, mode=mode, items=part))
+                        continue
+                    out.append(dict(isa=name, mode=mode, items=part + fill + [list(p) for p in part]))
     return out
 
 
@@ -133,11 +197,12 @@ def build_program(case):
     head = ["\tcpu\t" + I.cpu] + list(I.prologue)
     pre, body, post = [], [], []
     infos = []
-    for idx, (fi, vals, sty) in enumerate(case["items"]):
+    for idx, (fi, vals, sty, off) in enumerate(case["items"]):
         f = I.forms[fi]
-        pc = I.base + idx * I.slot
+        pc = I.base + idx * I.slot + off
         cls = f.classify(vals, pc)
-        info = dict(idx=idx, fi=fi, form=f, vals=vals, pc=pc, cls=cls, line=None, text=None, target=None)
+        info = dict(idx=idx, fi=fi, form=f, vals=vals, pc=pc, cls=cls, line=None, text=None, target=None,
+                    end=I.base + (idx + 1) * I.slot)
         infos.append(info)
         if cls == "excl" or len(vals) != len(f.ops):
             info["cls"] = "excl"
@@ -148,6 +213,7 @@ def build_program(case):
             if o.kind == "rel":
                 tgt = o.target(v, pc)
                 info["target"] = tgt
+                info.setdefault("targets", {})[oi] = tgt
                 if tgt < 0 or tgt > I.maxaddr:
                     info["cls"] = "excl"
                     break
@@ -157,11 +223,17 @@ def build_program(case):
                 elif mode == "rej" and st == 2:
                     st = 1      # errors in pass 1 would suppress pass 2: only known targets here
                 if st in (1, 2):
-                    lab = "T%d" % idx
+                    lab = "T%d_%d" % (idx, oi)
                     (pre if st == 1 else post).extend(["\torg\t" + lit(I, tgt, True), lab + ":"])
                     texts.append(lab)
                 else:
                     texts.append(lit(I, tgt, hexa))
+            elif o.kind == "int" and oi < 2 and (sty >> (6 + oi)) & 1:
+                # operand given through a symbol defined (EQU) before the instruction
+                sym = "V%d_%d" % (idx, oi)
+                pre.append("%s\tequ\t%s" % (sym, lit(I, v, hexa)))
+                texts.append(("+" if getattr(o, "plus", False) else "") + sym)
+                info["symbolic"] = True
             else:
                 texts.append(o.render(v, I.syntax, hexa))
         if info["cls"] == "excl":
@@ -214,6 +286,7 @@ def execute(case):
             classes.append("nt:" + k)
     agg = ["isa:" + I.name] * len(live) + ["mode:" + mode] * len(live) + ["items"] * len(live)
     agg += ["items-nontrivial"] * sum(1 for i in live if item_key(I, i))
+    agg += ["items-operand-via-symbol"] * sum(1 for i in live if i.get("symbolic"))
     agg += ["items-with-rel"] * sum(1 for i in live if i["target"] is not None)
     agg += ["excluded-by-classify"] * nexcl
     classes += agg + ["batch:" + I.name + ":" + mode]
@@ -265,12 +338,16 @@ def execute(case):
             lo = i["pc"] * g
             got = bytearray()
             a = lo
-            while (1, a) in bm and a < lo + I.slot * g:
+            while (1, a) in bm and a < i["end"] * g:
                 got.append(bm[(1, a)])
                 a += 1
-            stray = [x for x in range(lo, lo + I.slot * g) if (1, x) in bm and x >= a]
+            stray = [x for x in range(lo, i["end"] * g) if (1, x) in bm and x >= a]
             got = bytes(got)
-            if got != exp or stray:
+            same = got == exp
+            if not same and f.dontcare and len(got) == len(exp):
+                dc = (f.dontcare + bytes(len(exp)))[:len(exp)]
+                same = all((a ^ b) & ~m & 0xff == 0 for a, b, m in zip(got, exp, dc))
+            if not same or stray:
                 return engine.bad("[%s] %s: code file has %s, instruction set prescribes %s"
                                   % (I.name, describe(i), got.hex(" ") or "nothing", exp.hex(" ")),
                                   key, classes, text=i["text"], form=f.name, got=got.hex(), expected=exp.hex(),
@@ -279,9 +356,9 @@ def execute(case):
                 oi, dec = f.rel
                 o = f.ops[oi]
                 back = o.target(dec(got), i["pc"])
-                if back != i["target"]:
+                if back != i["targets"][oi]:
                     return engine.bad("[%s] %s: relative field decodes to %s, target is %s"
-                                      % (I.name, describe(i), lit(I, back, True), lit(I, i["target"], True)),
+                                      % (I.name, describe(i), lit(I, back, True), lit(I, i["targets"][oi], True)),
                                       key, classes, text=i["text"], form=f.name, got=got.hex(), **detail)
         return engine.ok(key, classes)
 
